@@ -8,7 +8,7 @@ package main
 import (
 	"bytes"
 	"crypto"
-	_ "crypto/sha512"
+	"crypto/sha512"
 	"crypto/sha256"
 	"flag"
 	"fmt"
@@ -73,6 +73,34 @@ func work(id int, shared *sharedT, rounds int) string {
 		fmt.Fprintf(&out, "%x ", sig2[:4])
 		sig3, _ := shared.sk.Sign(zr{}, msg, &ed25519.Options{AddedRandomness: true, SelfVerify: true})
 		fmt.Fprintf(&out, "%x ", sig3[:4])
+		{
+			// non-pure variants with a context that is DIFFERENT in every goroutine (any scratch the library shares
+			// between calls - a prefix buffer, a pooled hasher - then carries another goroutine's bytes)
+			cx := fmt.Sprintf("context of goroutine %d / %s", id, string(make([]byte, id*17)))
+			sc1, _ := shared.sk.Sign(nil, msg, &ed25519.Options{Context: cx})
+			ph := sha512.Sum512(msg)
+			sc2, _ := shared.sk.Sign(nil, ph[:], &ed25519.Options{Hash: crypto.SHA512, Context: cx})
+			sc3, _ := sk.Sign(nil, ph[:], &ed25519.Options{Hash: crypto.SHA512})
+			fmt.Fprintf(&out, "%x %x %x %v %v %v ", sc1[:6], sc2[:6], sc3[:6],
+				ed25519.VerifyWithOptions(shared.pk, msg, sc1, &ed25519.Options{Context: cx}),
+				ed25519.VerifyWithOptions(shared.pk, ph[:], sc2, &ed25519.Options{Hash: crypto.SHA512, Context: cx}),
+				ed25519.VerifyWithOptions(shared.pk, msg, sc1, &ed25519.Options{Context: cx + "x"}))
+			cbv := ed25519.NewBatchVerifier()
+			cbv.AddWithOptions(shared.pk, msg, sc1, &ed25519.Options{Context: cx})
+			cbv.AddWithOptions(shared.pk, ph[:], sc2, &ed25519.Options{Hash: crypto.SHA512, Context: cx})
+			cok, _ := cbv.Verify(zr{})
+			sctx2 := sr25519.NewSigningContext([]byte(cx))
+			var mk sr25519.MiniSecretKey
+			mk[0] = byte(id)
+			kq := mk.ExpandUniform().KeyPair()
+			sq, _ := kq.Sign(zr{}, sctx2.NewTranscriptBytes(msg))
+			sqb, _ := sq.MarshalBinary()
+			tq := merlin.NewTranscript(cx)
+			tq.AppendMessage("m", []byte(cx))
+			cq := make([]byte, 8)
+			tq.ExtractBytes(cq, "c")
+			fmt.Fprintf(&out, "%v %x %v %x ", cok, sqb[:6], kq.PublicKey().Verify(sctx2.NewTranscriptBytes(msg), sq), cq)
+		}
 		fmt.Fprintf(&out, "%v ", shared.v.Verify(pk, msg, sig))
 		fmt.Fprintf(&out, "%v ", shared.v.Verify(shared.pk, msg, shared.sig))
 		fmt.Fprintf(&out, "%v ", ed25519.VerifyExpanded(shared.epk, msg, shared.sig))
@@ -434,8 +462,8 @@ func main() {
 		bad++
 	}
 	for i := range res {
-		// work(id) differs from work(0) only in which LRU keys it touches, which is not printed
-		if res[i] != seq {
+		// the expected output of goroutine i is work(i) run on its own (sequentially, afterwards)
+		if exp := work(i, sh, *rounds); res[i] != exp {
 			fmt.Println("RESULT-MISMATCH goroutine", i)
 			bad++
 		}
